@@ -277,16 +277,24 @@ package main
 
 // ---- helpers of the handlers ----
 
+//@ spec func sigIndexOfSet(multi *MultiEpoch, x SigExistsIndex, n uint64) bool = exists q uint64 :: has(multi.epochs, q) && multi.epochs[q] != nil && multi.epochs[q].epoch == n && multi.epochs[q].sigExists == x
 //@ func (*MultiEpoch) getAllBucketteers
 //@   requires held(multi.mu) == 0 && validEpochSet(multi)
 //@   ensures held(multi.mu) == 0
 //@   ensures result != nil
+//@   # C09 (a query for a loaded epoch is answered from THAT epoch's files): what is stored under number n is the sig-exists
+//@   # index of a loaded epoch whose own number is n (one read-locked snapshot, keyed by epoch number, not by position)
+//@   ensures forall n uint64 :: has(result, n) ==> sigIndexOfSet(multi, result[n], n)
+//@   loop 0 invariant forall n uint64 :: has(bucketteers, n) ==> sigIndexOfSet(multi, bucketteers[n], n)
+//@   loop 0 invariant held(multi.mu) == 1 && validEpochSet(multi) && bucketteers != nil
 //@   noframe
 
 //@ func (*MultiEpoch) findEpochNumberFromSignature
 //@   # C02/C03: inside the per-epoch search job the sig-to-cid index (24-bit hashes: false positives for absent signatures)
 //@   # is consulted only for an epoch whose sig-exists index has the signature
 //@   fncall epoch.FindCidFromSignature requires ok && has
+//@   # C09: the sig-exists index consulted for epoch number N is the one the snapshot holds under N
+//@   fncall bucket.Has requires ok && has(buckets, epochNumber) && bucket == buckets[epochNumber]
 //@   requires ctx != nil && held(multi.mu) == 0 && validEpochSet(multi) && multi.options != nil
 //@   ensures held(multi.mu) == 0
 //@   noframe
